@@ -1050,6 +1050,20 @@ fn gen_pair(rng: &mut Rng, depth: usize) -> (Value, Value) {
                 (json!({"type": "string", "minLength": n.saturating_sub(1), "maxLength": n + 1}), json!(s))
             }
             5 => (json!({"type": ["integer", "null", "string"]}), rng.pick(&[json!(7), json!(null), json!("x")]).clone()),
+            6 if rng.chance(1, 2) => {
+                // string constants under length bounds: lengths count characters, not bytes
+                let words = ["abc", "日本語", "né", "°C", "√", "ok", "x", "😀!", "日本"];
+                let k = rng.below(words.len());
+                let w = words[k];
+                let n = w.chars().count();
+                let others: Vec<&str> = words.iter().cloned().filter(|o| o.chars().count() <= n + 1).collect();
+                let sch = match rng.below(3) {
+                    0 => json!({"type": "string", "maxLength": n, "enum": others}),
+                    1 => json!({"type": "string", "minLength": n, "maxLength": n, "const": w}),
+                    _ => json!({"anyOf": [{"type": "null"}, {"type": "string", "maxLength": n, "const": w}]}),
+                };
+                (sch, json!(w))
+            }
             6 => (json!({"const": {"k": [true, 1.5, "s"]}}), json!({"k": [true, 1.5, "s"]})),
             _ => (json!({"type": "boolean"}), json!(rng.chance(1, 2))),
         };
